@@ -54,6 +54,9 @@ type Live struct {
 	// stopped or not before the observed listener is attached.
 	Pre        *LiveOpts `json:"pre,omitempty"`
 	PreStopped bool      `json:"pre_stopped,omitempty"`
+	// Decoy (level "listen" only): a second, independent driver instance on which a listener
+	// with these options is attached after the observed one; it receives nothing.
+	Decoy *LiveOpts `json:"decoy,omitempty"`
 }
 
 func (s *Live) resetBefore(i int) bool {
@@ -195,6 +198,23 @@ func (s *Live) observe(env *core.Env, opts LiveOpts) (obs liveObs) {
 		if err != nil {
 			panic(err)
 		}
+		if s.Decoy != nil {
+			other := testdrv.New("decoy")
+			oins, _ := other.Ins()
+			var po []midi.Option
+			if s.Decoy.ActiveSense {
+				po = append(po, midi.UseActiveSense())
+			}
+			if s.Decoy.TimeCode {
+				po = append(po, midi.UseTimeCode())
+			}
+			if s.Decoy.SysEx {
+				po = append(po, midi.UseSysEx())
+			}
+			if _, derr := midi.ListenTo(oins[0], func(midi.Message, int32) {}, po...); derr != nil {
+				panic(derr)
+			}
+		}
 		for i, c := range chunks {
 			cur = i
 			drv.Sleep(time.Duration(s.Deltas[i]) * time.Millisecond)
@@ -324,7 +344,7 @@ func (s *Live) model(opts LiveOpts, st *core.Stats) []ref.RxMsg {
 		if s.Level == "reader" && s.resetBefore(i) {
 			rx = &ref.Rx{SysEx: opts.SysEx, BufSize: int(opts.BufSize)}
 		}
-		if st != nil {
+		if st != nil && len(c) <= 256 {
 			// feed byte-wise to record (state, class, class) transitions
 			for j, b := range c {
 				cl := ref.ByteClass(b)
@@ -512,6 +532,13 @@ func (s *Live) Shrinks(try func(core.Scenario) bool) bool {
 	if s.Pre != nil {
 		c := s.clone()
 		c.Pre = nil
+		if try(c) {
+			return true
+		}
+	}
+	if s.Decoy != nil {
+		c := s.clone()
+		c.Decoy = nil
 		if try(c) {
 			return true
 		}
@@ -707,7 +734,13 @@ func genWellFormed(r *core.Rand, opts LiveOpts, nMsgs int, withAS bool) (stream 
 			if total > bs {
 				total = bs
 			}
-			if total > 3000 {
+			if bs > 3000 && r.Chance(1, 3) {
+				// sizes around the steps at which a growing buffer would be enlarged
+				total = r.PickInt(4096, 4097, 4098, 8192, 8193, 16385, 32769, 65535, 65536, 65537, bs)
+				if total > bs {
+					total = bs
+				}
+			} else if total > 3000 {
 				total = 3000
 			}
 			if total >= 2 && bs >= 2 {
@@ -723,7 +756,11 @@ func genWellFormed(r *core.Rand, opts LiveOpts, nMsgs int, withAS bool) (stream 
 }
 
 func genChunks(r *core.Rand, n int) ([]int, []int32) {
-	chunks := r.Partition(n, r.Weighted(1, 2, 3, 4))
+	mode := r.Weighted(1, 2, 3, 4)
+	if n > 8192 && (mode == 1 || mode == 2) {
+		mode = 3 // long streams are not cut into tens of thousands of tiny chunks
+	}
+	chunks := r.Partition(n, mode)
 	deltas := make([]int32, len(chunks))
 	var total int64
 	for i := range deltas {
@@ -749,7 +786,7 @@ func genChunks(r *core.Rand, n int) ([]int, []int32) {
 	return chunks, deltas
 }
 
-var bufSizes = []uint32{0, 2, 3, 4, 5, 8, 16, 64, 256, 1024, 5000}
+var bufSizes = []uint32{0, 2, 3, 4, 5, 8, 16, 64, 256, 1024, 5000, 0, 16, 64, 256, 1024, 20000, 70000}
 
 // ---------------------------------------------------------------------------
 // C04
@@ -773,6 +810,9 @@ func (w liveWorld) Gen(seed uint64, tier string) core.Scenario {
 	}
 	if r.Chance(1, 600) {
 		n = 3000 // thousands of messages (and chunks) on one listener
+	}
+	if s.Opts.bufsize() >= 20000 && n > 3 && n < 3000 {
+		n = 3 // big buffers are for big sysex messages: keep the rest of the stream short
 	}
 	s.Stream, s.Sent = genWellFormed(r, s.Opts, n, true)
 	s.Chunks, s.Deltas = genChunks(r, len(s.Stream))
